@@ -163,6 +163,21 @@ def run_group(cmd, cwd, env, timeout):
     return subprocess.CompletedProcess(cmd, p.returncode, out, err)
 
 
+def prune_fact_bases(keep, but=None):
+    """Fact bases (and the per-tree-state witness expansions and analysis caches below them) describe
+    one state of the source tree each and are only ever reused for exactly that state: all but the
+    `keep` most recently used ones are deleted before a new one is built, so that checking many states
+    of the tree one after the other does not fill the disk (a state's base is 0.1-1 GB)."""
+    root = os.path.join(WORK, "facts")
+    try:
+        ds = [d for d in os.listdir(root) if os.path.isdir(os.path.join(root, d)) and d != but]
+    except OSError:
+        return
+    ds.sort(key=lambda d: os.path.getmtime(os.path.join(root, d)), reverse=True)
+    for d in ds[max(0, keep - 1):]:
+        shutil.rmtree(os.path.join(root, d), ignore_errors=True)
+
+
 def repo_facts(log=None):
     """Directory with the fact files of /repo's current working tree (built if necessary)."""
     repo = repo_path()
@@ -172,7 +187,12 @@ def repo_facts(log=None):
         out = os.path.join(WORK, "facts", key, "repo")
         stamp = os.path.join(out, "COMPLETE")
         if os.path.exists(stamp):
+            try:
+                os.utime(os.path.join(WORK, "facts", key), None)     # most recently used
+            except OSError:
+                pass
             return out
+        prune_fact_bases(keep=int(os.environ.get("VERIF_KEEP_FACT_BASES", "24")), but=key)
         shutil.rmtree(out, ignore_errors=True)
         os.makedirs(out)
         tdir = target_dir()
